@@ -165,7 +165,7 @@ fn flag_run(e: &'static Engine, workers: usize, parts: &'static [(char, &'static
 /// store-buffer member: a waiter gives up (cancelled coroutine / timed-out thread) and registers its release; the post is
 /// issued in that instant (label behind SyncBlocker::set_release). The permit must end up somewhere: in the waiter (success)
 /// or back in the semaphore.
-fn post_vs_giveup(e: &'static Engine, workers: usize, cancel: bool) {
+pub fn post_vs_giveup(e: &'static Engine, workers: usize, cancel: bool) {
     rt_init(workers);
     let sem = Arc::new(Semphore::new(0));
     static GOT: AtomicBool = AtomicBool::new(false);
